@@ -1,6 +1,7 @@
 """C10 - SQLite store round trip, one row per id, last wins: correspondence with Model/Store.v and direct oracle.
 
-Two streams, both through the public entry points (SqliteDataStore constructor, sync_individual, sync_all,
+Two basic streams (the red-team rounds below added more: three ctx.coq_compare calls, c10h histories, c10r recorded
+runs, c10b large histories), all through the public entry points (SqliteDataStore constructor, sync_individual, sync_all,
 ProblemViewDataStore on the file):
 
   histories   generated / corpus sequences of sync_individual / sync_all calls over individuals built from a
@@ -55,7 +56,11 @@ THEOREMS = {"Artap.Props.C10": [
 AXIOMS_OK = []          # closed under the global context
 # second tie to the code (tools/py2coq.py + front-end tools/py2coq_eff.py + coq/theories/GenProofs): on every run the source of
 # SqliteDataStore.sync_individual / sync_all is translated (execute / commit / the retry on sqlite3.OperationalError as effects
-# with outcomes, in order) and proved to have the control structure of the models (one upsert per individual in order, one commit)
+# with outcomes, in order) and proved to have the control structure of the models (one upsert per individual in order, one commit).
+# What GenProofs/StoreEquiv.v proves: the generated functions equal sync_spec / sync_all_spec (specifications in the source's shape,
+# defined in StoreEquiv.v itself, for ALL answers of execute / commit / the recursive call), and - when every statement is accepted -
+# their completed statements are Model/Crash.v resync / sync_all_steps.  No theorem links them to Model/Store.v (upsert, to_dict):
+# the content of the row and the SQL text stay with the sampled correspondence.
 from harness.core import translated_specs
 TRANSLATED = translated_specs("StoreGen")
 TRUSTED = [
@@ -75,8 +80,9 @@ ASSUMPTIONS = [
     "feature / parent / child values are numbers, booleans, None, Individuals and (nested) lists, tuples, numpy arrays of them, or an "
     "empty dict; a non-empty string or dict there makes Individual._replace_individual_id recurse without end (not written by the "
     "framework's algorithms, outside the model)",
-    "one writing session per file (re-opening a file in write mode reloads individuals whose state is a string and whose "
-    "parents/children are empty; not modelled)",
+    "a second writing session on a file is modelled and exercised (re-opening a file in write mode reloads individuals whose state "
+    "is a string and whose parents/children are empty: Model/Store.v Loaded / loaded_of_row, theorem C10_reload_resync, the re-open "
+    "histories); synchronising a reloaded individual again keeps the fields the property names, writes state null and drops parent / child ids",
     "parameter / cost names are strings",
     "a lock held by another connection is eventually released (after 3..10 refusals of the store's write in the lock histories); a file "
     "that stays locked for ever makes sync_individual recurse until RecursionError (outside the property)",
@@ -1687,7 +1693,7 @@ def run(ctx):
     hist["corpus_cases"] = n_corpus
     hist["algorithms_not_exercised"] = skipped
     ctx.extra.update({"distribution": hist})
-    ctx.rule = ("histories of 0..14 sync_individual / sync_all calls over 1..7 ids drawn from a pool with negative and 2^62-size ids, the data "
+    ctx.rule = ("histories of 0..14 (one in ten: 25, 40 or 60) sync_individual / sync_all calls over 1..7 ids drawn from a pool with negative and 2^62-size ids, the data "
                 "re-drawn between calls (so that 'last wins' is observable), written to a real SQLite file (thread-safe and single-connection "
                 "store, write / rewrite mode, fresh / empty / stale file) and read through a fresh ProblemViewDataStore; strings that are JSON tokens / number look-alikes / need "
                 "escaping (Infinity, NaN, 1e999, quotes, backslashes, NUL, lone surrogates, 2.4 kB) as custom values and keys, feature keys, "
@@ -1706,7 +1712,9 @@ LEVEL_TEXT = ("Machine-checked Coq theorems over a model of Individual.to_dict /
               "one row per id holding the image of the last synchronisation of that id, the row count is the number of distinct ids, the view "
               "rebuilds vector, costs, signed costs, population id, custom data and feature values (individuals replaced by their ids) of that "
               "last synchronisation, a final sync_all leaves a row with the final data of every recorded individual, and the problem's name, "
-              "parameter and cost definitions are read back unchanged (creation fails exactly on duplicate / missing names). The model is tied "
+              "parameter and cost definitions are read back unchanged whenever the parameter / cost names are distinct strings (only this "
+              "success direction is a listed theorem, C10_problem_meta_roundtrip; that creation fails on a duplicate name is the lemma "
+              "insert_all_dup and an example, not a listed theorem; for a missing name there is no lemma, the correspondence exercises both). The model is tied "
               "to the code on every run by evaluating it in Coq on generated and corpus histories and on the recorded store calls of complete "
               "runs of every synchronising algorithm, against a real SQLite file read through a fresh ProblemViewDataStore (floats compared by "
               "bit pattern).")
